@@ -3,11 +3,16 @@
    diff txt/md/csv BYTE FOR BYTE as functions of the analysis result; the check compares the real
    formatter's bytes with these functions applied to the real API result on every run, and parses every
    format (incl. dot) back.  Proved here: each format lists every entry exactly once (rows are a
-   permutation of the entries' rows) and the row formats print the same rows.  Not proved: injectivity of
-   the string rendering of connections / IP ranges (the check's parse-back covers it on generated results);
-   encoding/json and encoding/csv are modelled on the alphabet the analysis produces. *)
+   permutation of the entries' rows), the row formats print the same rows, and - faithfulness proper - the
+   rendering is INJECTIVE: the printed connection determines the canonical connection set, and the txt, md,
+   csv and json outputs of `list` each determine the report (as a multiset of entries), so two different
+   results never print alike and the four formats carry the same information.  The hypothesis (canonical
+   connection sets, IPv4 ranges, workload names without blank / newline / comma / quote that do not consist
+   of address-range characters only) is decidable (`entry_printableb`) and the check evaluates it on every
+   implementation result.  Not proved: the same for diff and exposure outputs and for dot (parse-back in the
+   check); encoding/json and encoding/csv are modelled on the alphabet the analysis produces. *)
 From Coq Require Import List ZArith Bool String Permutation.
-From NP Require Import IntervalSet ConnSet ConnSetProofs World Build Connlist Diff Format SortGeneric FormatProofs.
+From NP Require Import IntervalSet ConnSet ConnSetProofs World Build Connlist Diff Format SortGeneric FormatProofs StrInj ConnInj RowInj.
 Import ListNotations.
 
 Theorem C09_rows_are_exactly_the_entries es : Permutation (rowsort (map row_of es)) (map row_of es).
@@ -31,3 +36,61 @@ Theorem C09_conn_string_is_function_of_the_set c o :
   cs_ninv c -> cs_ninv o -> (forall p n, cs_denote c p n = cs_denote o p n) -> cs_string c = cs_string o.
 Proof. exact (cs_string_eq_of_denote c o). Qed.
 Print Assumptions C09_conn_string_is_function_of_the_set.
+
+(* ---- the rendering is injective ---- *)
+
+(* the printed connection determines the canonical connection set (hence, with the theorem above: two canonical sets
+   print alike iff they allow the same (protocol, port) points) *)
+Theorem C09_connection_string_determines_the_set c o :
+  cs_ninv c -> cs_ninv o -> cs_string c = cs_string o -> c = o.
+Proof. exact (cs_string_inj c o). Qed.
+Print Assumptions C09_connection_string_determines_the_set.
+
+(* a printed peer determines the peer: an address range is never confused with a workload *)
+Theorem C09_peer_string_determines_the_peer p q :
+  peer_ok p -> peer_ok q -> rpeer_str p = rpeer_str q -> p = q.
+Proof. exact (rpeer_str_inj p q). Qed.
+Print Assumptions C09_peer_string_determines_the_peer.
+
+(* each output of `list` determines the report *)
+Theorem C09_txt_determines_the_report es es' :
+  Forall entry_ok es -> Forall entry_ok es' -> list_txt es = list_txt es' -> Permutation es es'.
+Proof. exact (list_txt_inj es es'). Qed.
+Print Assumptions C09_txt_determines_the_report.
+
+Theorem C09_md_determines_the_report es es' :
+  Forall entry_ok es -> Forall entry_ok es' -> list_md es = list_md es' -> Permutation es es'.
+Proof. exact (list_md_inj es es'). Qed.
+Print Assumptions C09_md_determines_the_report.
+
+Theorem C09_csv_determines_the_report es es' :
+  Forall entry_ok es -> Forall entry_ok es' -> list_csv es = list_csv es' -> Permutation es es'.
+Proof. exact (list_csv_inj es es'). Qed.
+Print Assumptions C09_csv_determines_the_report.
+
+Theorem C09_json_determines_the_report es es' :
+  Forall entry_ok es -> Forall entry_ok es' -> list_json es = list_json es' -> Permutation es es'.
+Proof. exact (list_json_inj es es'). Qed.
+Print Assumptions C09_json_determines_the_report.
+
+Theorem C09_formats_carry_the_same_information es es' : Forall entry_ok es -> Forall entry_ok es' ->
+  (list_txt es = list_txt es' <-> list_md es = list_md es') /\
+  (list_txt es = list_txt es' <-> list_csv es = list_csv es') /\
+  (list_txt es = list_txt es' <-> list_json es = list_json es').
+Proof. exact (formats_equivalent es es'). Qed.
+Print Assumptions C09_formats_carry_the_same_information.
+
+(* the hypothesis is decidable; the check runs this on every implementation result *)
+Theorem C09_printable_checker_sound es : forallb entry_printableb es = true -> Forall entry_ok es.
+Proof. exact (entries_printable es). Qed.
+Print Assumptions C09_printable_checker_sound.
+
+(* non-vacuity: a report with workloads, an address range, a multi-protocol set and the full set is printable *)
+Example C09_printable_example :
+  forallb entry_printableb
+    [ mkRE (RW "default/a[Deployment]") (RW "ns1/b-2[Pod]")
+           (mkCS false (Some (mkPS [(80, 80); (8080, 8090)] [] [])) (Some (mkPS [(53, 53)] [] [])) None);
+      mkRE (RIP 0 167772159) (RW "default/a[Deployment]") (mkCS true None None None);
+      mkRE (RW "{ingress-controller}") (RW "default/a[Deployment]") (mkCS false (Some (mkPS [(1, 65535)] [] [])) None None) ]%Z
+  = true.
+Proof. vm_compute. reflexivity. Qed.
